@@ -36,7 +36,7 @@ type stats struct {
 	exactChecked, removeWithSub, removeStarSurvives, resetSeen, staticRound, dynamicRound      bool
 	modelAmbiguous, backdated, richNames, sleptWithACL, parkedInsideFeed, removeReaddRace      bool
 	startedWhileInsideFeed, mixedEnc, nilPath, perPathOrigins, rpcDeadline, walkParkedInInsert bool
-	aclFlipped                                                                                 bool
+	aclFlipped, oddTargetNames                                                                 bool
 	skippedSteps, maxBulk, maxOnceLeaves                                                       int
 }
 
@@ -86,6 +86,7 @@ func (s *stats) labels() []string {
 	add(s.richNames, "names-with-common-string-prefix-or-slash")
 	add(s.sleptWithACL, "quiet-period-with-acl")
 	add(s.aclFlipped, "grant-changed-while-streams-were-open")
+	add(s.oddTargetNames, "target-names-with-glob-character-case-twins-or-separators")
 	add(s.maxBulk > 32, "bulk-update>32")
 	add(s.maxBulk > 64, "bulk-update>64")
 	add(s.maxBulk > 256, "bulk-update>256")
@@ -1053,6 +1054,11 @@ func trimStack(b []byte) string {
 func run(t *testing.T, sc *Scenario, prop string) (st *stats, err error) {
 	w := &world{t: t, sc: sc, prop: prop, chk: map[string]bool{prop: true, "PANIC": true}}
 	st = &w.st
+	targetNames = sc.TNames
+	defer func() { targetNames = nil }()
+	if len(sc.TNames) > 0 {
+		w.st.oddTargetNames = true
+	}
 	defer vstat.Watchdog(20*time.Second, 5*time.Second)()
 	synctest.Test(t, func(t *testing.T) {
 		defer func() {
